@@ -133,7 +133,8 @@ class FV(object):
     def iscomplex_(self):
         if all(p is not None for p in self.terms) or FV.value_kind == 'f':
             return False
-        return Unk('iscomplex(f)')
+        # a complex valued user function: its values have a non zero imaginary part (the generic case the run stands for)
+        return True
 
     value_kind = 'f'      # dtype kind assumed for the user function's values ('f' real, 'c' complex)
 
